@@ -1,20 +1,29 @@
 ------------------------------- MODULE ConnPix -------------------------------
 (***************************************************************************)
 (* cImageD11.connectedpixels, src/connectedpixels.c:65-191, transcribed    *)
-(* statement for statement: the hoisted first pixel, the first row, and    *)
-(* for every later row the row start, the middle and the row end, each     *)
-(* with its own list of previously seen neighbours; then dset_compress     *)
-(* and the relabel pass.                                                   *)
+(* statement for statement: the verbose banner, the hoisted first pixel,   *)
+(* the first row, and for every later row the row start, the middle and    *)
+(* the row end, each with its own list of previously seen neighbours; then *)
+(* dset_compress and the relabel pass.                                     *)
 (*                                                                         *)
 (* variables  img     the thresholded image (1 = strictly above)           *)
-(*            con8    connectivity flag                                    *)
+(*            con8    the connectivity the CALLER requested (the con8      *)
+(*                    argument is non-zero); the property is stated on it  *)
+(*            verbose the caller's verbose argument (any member of VERBS)  *)
+(*            eight   the kernel's own parameter variable `eightconnected` *)
+(*                    (an int) as the statements of the body read it       *)
 (*            labels  the caller's inout array (starts as POISON: any      *)
 (*                    previous content)                                    *)
 (*            S       disjoint set array (Dset.tla), initial capacity CAP  *)
 (*            pos     next pixel (row-major index) ; pc ; T ; np           *)
 (*            oob     set when a statement would index outside labels      *)
 (*            todo    rows the relabel pass has not rewritten yet (ROWPAR)  *)
-(* actions    FirstPixel FirstRow RowStart Mid RowEnd Compress Relabel     *)
+(* actions    Banner (connectedpixels.c:71-77: `if (verbose)` two printf   *)
+(*            calls, the second chosen by `eightconnected`; it prints and  *)
+(*            writes nothing else: every variable is left as it was)       *)
+(*            FirstPixel FirstRow RowStart Mid RowEnd (their tests of the  *)
+(*            connectivity read `eight`, not the caller's request)         *)
+(*            Compress Relabel                                             *)
 (*            RelabelRow(r): with ROWPAR = TRUE the relabel pass - the     *)
 (*            `#pragma omp parallel for` over rows, connectedpixels.c:173  *)
 (*            - is taken one row at a time in ANY order (every schedule of *)
@@ -24,30 +33,41 @@
 (*            pointwise map, so the cases are emitted from that setting).  *)
 (*            The harness binds this by sweeping the real thread count     *)
 (*            (1, 2, 3, 7, 16, 61; more threads than rows included).       *)
-(* checked    InBounds, DsInv in every state (C20); at pc = "done":        *)
+(* checked    InBounds, DsInv, FlagKept (the kernel's flag still says what *)
+(*            the caller asked for) in every state (C20); at pc = "done":  *)
 (*            Defined (no poison left), Background, Partition = the        *)
 (*            connected components under the independent definition        *)
-(*            (closure of adjacency), Numbering = 1..n in raster order of  *)
-(*            first pixels, np = n  (C11)                                  *)
-(* bounds     every binary image of NS x NF, both connectivities           *)
+(*            (closure of adjacency) for the connectivity REQUESTED,       *)
+(*            Numbering = 1..n in raster order of first pixels, np = n     *)
+(*            (C11).  Numbering fixes the labels as a function of (img,    *)
+(*            con8) alone: the result may not depend on `verbose`.         *)
+(* options    every emitted case carries the option arguments of the call  *)
+(*            (con8, verbose): the enumeration is images x CONS x VERBS,   *)
+(*            and the harness replays each case with exactly these         *)
+(*            arguments (the kernel's banner goes to a swallowed stdout).  *)
+(* bounds     every binary image of NS x NF, both connectivities, every    *)
+(*            verbose value of VERBS (0 = silent, 1, 2)                    *)
 (***************************************************************************)
 EXTENDS Dset, Json
 
-CONSTANTS NS, NF, CAP, CONS, EmitOn, ROWPAR
+CONSTANTS NS, NF, CAP, CONS, VERBS, EmitOn, ROWPAR
 POISON == -7
 N == NS * NF
 Px == 0..(N - 1)
 Row(p) == p \div NF
 ColOf(p) == p % NF
 
-VARIABLES img, con8, labels, S, pos, pc, T, np, oob, todo
-vars == <<img, con8, labels, S, pos, pc, T, np, oob, todo>>
+VARIABLES img, con8, verbose, eight, labels, S, pos, pc, T, np, oob, todo
+vars == <<img, con8, verbose, eight, labels, S, pos, pc, T, np, oob, todo>>
+opts == <<con8, verbose, eight>>
 
 Init == /\ img \in [Px -> {0, 1}]
         /\ con8 \in CONS
+        /\ verbose \in VERBS
+        /\ eight = (IF con8 THEN 1 ELSE 0)
         /\ labels = [p \in Px |-> POISON]
         /\ S = DsInit(CAP)
-        /\ pos = 0 /\ pc = "scan" /\ T = <<>> /\ np = -1 /\ oob = FALSE /\ todo = {}
+        /\ pos = 0 /\ pc = "banner" /\ T = <<>> /\ np = -1 /\ oob = FALSE /\ todo = {}
 
 \* one pixel: labels[ipx] = 0 ; if above threshold: match against nbrs (in order), else new label
 FoldMatch(lab, st0, nbrs) ==
@@ -69,7 +89,12 @@ Pixel(ipx, nbrs) ==
                           IN labels' = [lab0 EXCEPT ![ipx] = nw[2]] /\ S' = nw[1]
                      ELSE labels' = [lab0 EXCEPT ![ipx] = st.x] /\ S' = st.S
 
-Advance == /\ pos' = pos + 1 /\ UNCHANGED <<img, con8, pc, T, np, todo>>
+\* if (verbose) { printf("Welcome to connectedpixels "); if (eightconnected) printf(..8) else printf(..4) }
+Banner == /\ pc = "banner" /\ pc' = "scan"
+          /\ UNCHANGED <<img, opts, labels, S, pos, T, np, oob, todo>>
+E8 == eight # 0
+
+Advance == /\ pos' = pos + 1 /\ UNCHANGED <<img, opts, pc, T, np, todo>>
 Scanning == pc = "scan" /\ pos < N /\ ~oob
 
 \* if (data[0] > threshold) dset_new else labels[0] = 0
@@ -81,35 +106,35 @@ FirstRow == /\ Scanning /\ pos >= 1 /\ pos < NF
 \* first point of a row: N, then NE when eightconnected
 RowStart == /\ Scanning /\ pos >= NF /\ ColOf(pos) = 0
             /\ LET ir == pos  irp == pos - NF
-               IN Pixel(ir, IF con8 THEN <<irp, irp + 1>> ELSE <<irp>>)
+               IN Pixel(ir, IF E8 THEN <<irp, irp + 1>> ELSE <<irp>>)
             /\ Advance
 \* for (j = 1; j < nf - 1; j++) : NW, N, NE, W
 Mid == /\ Scanning /\ pos >= NF /\ ColOf(pos) >= 1 /\ ColOf(pos) < NF - 1
        /\ LET ipx == pos  irp == pos - NF
-          IN Pixel(ipx, IF con8 THEN <<irp - 1, irp, irp + 1, ipx - 1>> ELSE <<irp, ipx - 1>>)
+          IN Pixel(ipx, IF E8 THEN <<irp - 1, irp, irp + 1, ipx - 1>> ELSE <<irp, ipx - 1>>)
        /\ Advance
 \* last pixel on the row: NW, N, W
 RowEnd == /\ Scanning /\ pos >= NF /\ ColOf(pos) = NF - 1 /\ NF > 1
           /\ LET ipx == pos  irp == pos - NF
-             IN Pixel(ipx, IF con8 THEN <<irp - 1, irp, ipx - 1>> ELSE <<irp, ipx - 1>>)
+             IN Pixel(ipx, IF E8 THEN <<irp - 1, irp, ipx - 1>> ELSE <<irp, ipx - 1>>)
           /\ Advance
 
 Compress == /\ pc = "scan" /\ pos = N /\ ~oob
             /\ LET c == DsCompress(S) IN T' = c[1] /\ np' = c[2] /\ S' = c[3]
             /\ pc' = "relabel" /\ todo' = (IF ROWPAR THEN 0..(NS - 1) ELSE {})
-            /\ UNCHANGED <<img, con8, labels, pos, oob>>
+            /\ UNCHANGED <<img, opts, labels, pos, oob>>
 
 Relabel == /\ pc = "relabel" /\ ~ROWPAR
            /\ labels' = [p \in Px |-> IF labels[p] > 0 THEN T[labels[p]] ELSE labels[p]]
-           /\ pc' = "done" /\ UNCHANGED <<img, con8, S, pos, T, np, oob, todo>>
+           /\ pc' = "done" /\ UNCHANGED <<img, opts, S, pos, T, np, oob, todo>>
 \* one row of the parallel relabel loop (any row still to do)
 RelabelRow(r) == /\ pc = "relabel" /\ ROWPAR /\ r \in todo
                  /\ labels' = [p \in Px |-> IF Row(p) = r /\ labels[p] > 0 THEN T[labels[p]] ELSE labels[p]]
                  /\ todo' = todo \ {r}
                  /\ pc' = (IF todo \ {r} = {} THEN "done" ELSE "relabel")
-                 /\ UNCHANGED <<img, con8, S, pos, T, np, oob>>
+                 /\ UNCHANGED <<img, opts, S, pos, T, np, oob>>
 
-Next == FirstPixel \/ FirstRow \/ RowStart \/ Mid \/ RowEnd \/ Compress \/ Relabel
+Next == Banner \/ FirstPixel \/ FirstRow \/ RowStart \/ Mid \/ RowEnd \/ Compress \/ Relabel
         \/ \E r \in 0..(NS - 1) : RelabelRow(r)
 Spec == Init /\ [][Next]_vars
 
@@ -130,6 +155,8 @@ CanonLabel(p) == IF img[p] = 0 THEN 0 ELSE Cardinality({f \in Firsts : f <= MinO
 
 InBounds == ~oob
 DsInv == DsOK(S)
+\* the flag the body tests is what the caller asked for (no statement rewrites the parameter)
+FlagKept == (eight # 0) <=> con8
 Done == pc = "done"
 Defined == Done => \A p \in Px : labels[p] # POISON
 Background == Done => \A p \in Px : (labels[p] = 0) <=> (img[p] = 0)
@@ -143,7 +170,7 @@ Numbering == Done => LET C == [p \in Above |-> MinOf(Comp(p))]
                                                       ELSE Cardinality({f \in F : f <= C[p]})
 
 Emit == (Done /\ EmitOn) =>
-          PrintT("@@" \o ToJson([ns |-> NS, nf |-> NF, con8 |-> IF con8 THEN 1 ELSE 0,
+          PrintT("@@" \o ToJson([ns |-> NS, nf |-> NF, con8 |-> IF con8 THEN 1 ELSE 0, verbose |-> verbose,
                                  img |-> [p \in 1..N |-> img[p - 1]],
                                  labels |-> [p \in 1..N |-> labels[p - 1]], np |-> np,
                                  slen |-> S[0]]))
